@@ -339,6 +339,7 @@ func runMatBinary(c *Ctx) *Violation {
 	}); v != nil {
 		return v
 	}
+	encCopy := append([]byte(nil), enc...)
 	// framing: several values back to back on one stream
 	if v := c.Guard(name+"/framing", func() string { return "framed stream" }, func() *Violation {
 		k := 2 + t.Choose(simrt.KWorkload, 3)
@@ -519,6 +520,11 @@ func runMatBinary(c *Ctx) *Violation {
 		if v := try("flip(data)", simio.Flip(enc, off, bit), uint64(off), uint64(bit)); v != nil {
 			return v
 		}
+	}
+	// the encoding handed out at the start must still be what it was
+	c.Oracle("encoding-immutable")
+	if !bytes.Equal(enc, encCopy) {
+		return viol("mat-binary/"+name+"/encoding-changed-after-return", "the bytes returned by MarshalBinary were changed by later encoder/decoder calls")
 	}
 	// deliberate dimension rewrites whose product wraps around int64
 	for i := 0; i < 6; i++ {
